@@ -10,7 +10,7 @@ from . import rec
 from .rec import (NONE, INF, EXIT, Recorder, Ticks, Exhausted, Livelock, Unrepresentable, MachineryError,
                   instrument_node, instrument_arrival_node, instrument_routers, make_individual_class,
                   project, new_records, finalize)
-from .scenario import Ctx, build, normalise, to_cfg, DEN
+from .scenario import Ctx, build, normalise, to_cfg, DEN, unit_of
 
 U20 = 1 << 20
 
@@ -179,7 +179,7 @@ class Run:
                      "trk": {"a": [], "b": [], "m": [], "inc": 1, "hl": 1, "ht": 0}, "dg": [],
                      "steps": [], "recs": [], "ev": {"kind": "init", "node": 0, "cls": 0, "date": 0}}
             self.init = empty
-            self.final = dict(empty, ttd=[], util=[])
+            self.final = dict(empty, ttd=[], util=[], probs=[])
             return self.trace()
         self.Q = Q
         R = Recorder(Q, self.tk, self.names)
@@ -276,11 +276,39 @@ class Run:
         final["recs"] = new_records(R)
         final["ev"] = {"kind": "final", "node": 0, "cls": 0, "date": self.tk(Q.current_time)}
         final["util"] = [util_report(nd) for nd in Q.transitive_nodes]
+        final["probs"] = self.prob_report(Q)
         name = type(Q.statetracker).__name__
         final["ttd"] = [{"s": rec.enc_tracker_state(name, st), "t": self.tk(v)}
                         for st, v in getattr(Q, "times_to_deadlock", {}).items()]
         self.final = final
         return self.trace()
+
+    def prob_report(self, Q):
+        """state_probabilities for a few observation windows, each share as an exact fraction un/ud"""
+        sc = self.sc
+        if sc["tracker"] == "none" or sc["stop"] != "time" or sc["exact"] or self.outcome != "returned":
+            return []
+        from .scenario import tv
+        T = sc["T"]
+        name = type(Q.statetracker).__name__
+        wins = [(0, T), (T // 4, max(T // 4 + 1, (3 * T) // 4)), (1, 2), (T // 2, T)]
+        out = []
+        for a, b in wins:
+            if not (0 <= a < b):
+                continue
+            try:
+                res = Q.statetracker.state_probabilities(observation_period=(tv(sc, a), tv(sc, b)))
+            except Exception as e:
+                out.append({"a": Fraction(a) * unit_of(sc), "b": Fraction(b) * unit_of(sc), "res": [], "err": True})
+                continue
+            rows = []
+            for st, p in res.items():
+                fr = Fraction(float(p)).limit_denominator(10 ** 6)
+                ok = fr.numerator / fr.denominator == float(p)
+                rows.append({"s": rec.enc_tracker_state(name, st), "un": fr.numerator if ok else -1,
+                             "ud": fr.denominator if ok else 1})
+            out.append({"a": Fraction(a) * unit_of(sc), "b": Fraction(b) * unit_of(sc), "res": rows, "err": False})
+        return out
 
     def trace(self):
         t = {"tid": self.tid, "cfg": to_cfg(self.sc), "init": self.init, "events": self.events,
